@@ -165,6 +165,84 @@ impl ParseOk for str {
     { unimplemented!() }
 }
 
+// ------------------------------------------------------------------ Response::body_string: the charset the
+// body is decoded with is the `charset` parameter of the declared content type
+#[verifier::external_body]
+pub struct StatusCode { _p: u8 }
+//@extract id=HttpError file=crux_http/src/error.rs item="enum HttpError"
+//@rule X7.path 1 s/http_types::StatusCode/StatusCode/
+//@end
+impl From<Error> for HttpError {
+    // ASSUMED (crux_http/src/error.rs: From<http_types::Error>)
+    #[verifier::external_body]
+    fn from(e: Error) -> (r: HttpError) { unimplemented!() }
+}
+#[verifier::external_body]
+pub struct ParamValue { _p: u8 }
+impl ParamValue {
+    pub uninterp spec fn text(&self) -> Seq<char>;
+    // ASSUMED (Display for ParamValue)
+    #[verifier::external_body]
+    pub fn to_string(&self) -> (r: String)
+        ensures r@ == self.text(),
+    { unimplemented!() }
+}
+impl Mime {
+    /// the value of the named parameter of this media type (http-types: uninterpreted)
+    pub uninterp spec fn param_s(&self, name: Seq<char>) -> Option<ParamValue>;
+    // ASSUMED (http_types::Mime::param)
+    #[verifier::external_body]
+    pub fn param(&self, name: &str) -> (r: Option<&ParamValue>)
+        ensures match r { Some(p) => self.param_s(name@) == Some(*p), None => self.param_s(name@) is None },
+    { unimplemented!() }
+}
+// ASSUMED (core): Option<String>::as_deref borrows the text
+#[verifier::external_body]
+pub fn as_deref_str(o: &Option<String>) -> (r: Option<&str>)
+    ensures match r { Some(s) => o matches Some(t) && s@ == t@, None => o is None },
+{ unimplemented!() }
+/// the charset a response declares: the `charset` parameter of its content type (the last Content-Type value)
+pub open spec fn declared_charset(r: Response) -> Option<Seq<char>> {
+    match r.content_type_values() {
+        None => None,
+        Some(vs) => match mime_of(vs.vals().last().text()) {
+            None => None,
+            Some(m) => match m.param_s("charset"@) { None => None, Some(p) => Some(p.text()) },
+        },
+    }
+}
+pub open spec fn label_of_s(cs: Option<Seq<char>>) -> Seq<u8> {
+    match cs { Some(l) => str_bytes(l), None => str_bytes("utf-8"@) }
+}
+impl Response {
+    pub uninterp spec fn body_s(&self) -> Option<Vec<u8>>;
+    pub uninterp spec fn status_s(&self) -> StatusCode;
+    /// all headers and the version (opaque here)
+    pub uninterp spec fn headers_and_version_s(&self) -> int;
+    // ASSUMED here (proved in unit H on the real body): returns the stored body as it is and takes it; an
+    // already-taken body is an error value carrying the status; headers untouched
+    #[verifier::external_body]
+    pub fn body_bytes(&mut self) -> (r: core::result::Result<Vec<u8>, HttpError>)
+        ensures
+            old(self).body_s() matches Some(b) ==> r == Ok::<Vec<u8>, HttpError>(b),
+            old(self).body_s() is None ==> (r matches Err(HttpError::Http { code, message, body }) && code == old(self).status_s() && body is None),
+            final(self).body_s() is None && final(self).status_s() == old(self).status_s() && final(self).content_type_values() == old(self).content_type_values() && final(self).headers_and_version_s() == old(self).headers_and_version_s(),
+    { unimplemented!() }
+//@extract id=Response::body_string file=crux_http/src/response/response.rs within="impl Response<Vec<u8>>" item="fn body_string" props=C15
+//@expect pub fn body_string(&mut self) -> crate::Result<String>
+//@sig pub fn body_string(&mut self) -> (r: core::result::Result<String, HttpError>)
+//@contract
+        ensures
+            old(self).body_s() is None ==> (r matches Err(HttpError::Http { code, message, body }) && code == old(self).status_s() && body is None), // [C15/Response::body_string/a-body-already-taken-is-an-error-value-carrying-the-status]
+            old(self).body_s() is Some && for_label_s(label_of_s(declared_charset(*old(self)))) is None ==> r is Err, // [C15/Response::body_string/a-declared-charset-the-decoder-does-not-know-is-an-error-value]
+            old(self).body_s() is Some && for_label_s(label_of_s(declared_charset(*old(self)))) is Some ==> (r is Err <==> decode_failed(for_label_s(label_of_s(declared_charset(*old(self))))->Some_0, old(self).body_s()->Some_0@)) && (r matches Ok(s) ==> s@ == decode_text(for_label_s(label_of_s(declared_charset(*old(self))))->Some_0, old(self).body_s()->Some_0@)), // [C15/Response::body_string/the-body-is-decoded-with-exactly-the-charset-the-content-type-declares-utf8-when-none]
+            final(self).status_s() == old(self).status_s() && final(self).content_type_values() == old(self).content_type_values() && final(self).headers_and_version_s() == old(self).headers_and_version_s(), // [C15/Response::body_string/reading-the-body-leaves-status-headers-version-alone]
+//@rule X1.closure-contract 1 closure#\.and_then\(#|$x: &Mime| -> (p: Option<&ParamValue>) ensures match p { Some(v) => $x.param_s("charset"@) == Some(*v), None => $x.param_s("charset"@) is None } // [C15/Response::body_string/the-charset-parameter-of-the-declared-content-type-is-the-one-read]\n#
+//@rule X1.closure-contract 1 closure#\.map\(#|$x: &ParamValue| -> (t: String) ensures t@ == $x.text() // [C15/Response::body_string/the-charset-name-is-passed-to-the-decoder-as-it-stands]\n#
+//@rule X7.as-deref 1 s/(\w+)\.as_deref\(\)/as_deref_str(&\1)/
+//@end
+}
+
 } // verus!
 
 fn main() {}
